@@ -124,6 +124,18 @@ pub fn forge<U: CircuitUni>(h: &Honest<U>, f: &CellFault) -> Option<Vec<RowMajor
                 return None;
             }
         }
+        "limb_pair" => {
+            // two limbs of one operand move in opposite directions (+delta on `col`, -delta on
+            // `row2`): sums and other linear combinations of the limbs stay what they were
+            let t = m.get_mut(f.table)?;
+            let w = t.width();
+            if f.col == f.row2 || f.col >= w || f.row2 >= w || (f.row + 1) * w > t.values.len() {
+                return None;
+            }
+            let dlt = U::BF::from_u64(f.delta.max(1));
+            t.values[f.row * w + f.col] += dlt;
+            t.values[f.row * w + f.row2] -= dlt;
+        }
         "slot_reassign" => {
             // a witness value changed without propagating it: every bus participant of slot `row`
             // gets the new value (delta 0 = boolean flip), no dependent row is recomputed
@@ -348,6 +360,20 @@ pub fn enumerate<U: CircuitUni>(h: &Honest<U>, rng: &mut Rng, tier: Tier) -> Vec
         for _ in 0..tier.pick(3, 10) {
             let (r1, r2) = (rng.usize_below(rows), rng.usize_below(rows));
             v.push(CellFault { kind: "row_swap".into(), table: t, row: r1, col: 0, delta: 0, row2: r2 });
+        }
+    }
+    // compensating two-limb faults inside one operand of every active ALU op (extension degrees >= 2)
+    if d >= 2 {
+        let g = h.dec.geom;
+        for op in &h.dec.ops {
+            for operand in 0..4usize {
+                let (i, j) = (rng.usize_below(d), rng.usize_below(d));
+                if i == j {
+                    continue;
+                }
+                let base = g.operand(op.lane, operand);
+                v.push(CellFault { kind: "limb_pair".into(), table: 2, row: op.row, col: base + i, delta: 1 + rng.below(U::BF::ORDER_U64 - 1), row2: base + j });
+            }
         }
     }
     // witness values changed without propagation: every slot on the bus (capped)
